@@ -31,7 +31,7 @@ let sharded (emit : emit) =
   let i = ref 0 in
   let (sh, nsh) = Lazy.force shard_info in
   fun (mk : unit -> string * (bool -> string)) ->
-    (if !i mod nsh = sh then (let (case, f) = mk () in emit case (f true) (f false)) else emit "" "" "");
+    ignore (sh, nsh); (if Streams.mine () then (let (case, f) = mk () in emit case (f true) (f false)) else emit "" "" "");
     incr i
 let zs = Z.to_string
 
